@@ -11,11 +11,50 @@ pub struct Out {
     /// keep probability numerator / 1_000_000 per family (thorough: 1_000_000)
     keep: u64,
     rng: Rng,
+    /// strata already represented (see `want_s`)
+    seen: std::collections::HashSet<u64>,
+}
+
+/// The seven classes of room versions with identical authorization-rule flags.
+fn vclass(ver: u32) -> u32 {
+    match ver {
+        1 | 2 => 0,
+        3..=5 => 1,
+        6 => 2,
+        7 => 3,
+        8 | 9 => 4,
+        10 => 5,
+        _ => 6,
+    }
 }
 
 impl Out {
     fn want(&mut self) -> bool {
         self.keep >= 1_000_000 || (self.rng.next() % 1_000_000) < self.keep
+    }
+    /// Stratified sampling for the quick tier: the first cell of every stratum (the projection of
+    /// the family's product onto the dimensions that select the rule applied: version class,
+    /// memberships, join rule, ...) is always kept, the others with the family's keep probability.
+    /// A uniform sample of a 260 000-cell product at 0.35 % would miss a stratum such as
+    /// "banned user joins a public room" (88 cells) most of the time.
+    fn want_s<K: std::hash::Hash>(&mut self, key: K) -> bool {
+        use std::hash::Hasher;
+        let mut h = std::collections::hash_map::DefaultHasher::new();
+        key.hash(&mut h);
+        let fresh = self.seen.insert(h.finish());
+        fresh || self.want()
+    }
+    /// Two projections at once (e.g. rule-selecting dimensions, and threshold position): kept when
+    /// either stratum is new.
+    fn want_s2<K: std::hash::Hash, L: std::hash::Hash>(&mut self, k1: K, k2: L) -> bool {
+        use std::hash::Hasher;
+        let mut h1 = std::collections::hash_map::DefaultHasher::new();
+        k1.hash(&mut h1);
+        let mut h2 = std::collections::hash_map::DefaultHasher::new();
+        k2.hash(&mut h2);
+        let f1 = self.seen.insert(h1.finish());
+        let f2 = self.seen.insert(h2.finish() ^ 0x9e37_79b9_7f4a_7c15);
+        f1 || f2 || self.want()
     }
     fn push(&mut self, s: Scn, cls: &str) {
         self.scns.push((s.seal(), cls.to_owned()));
@@ -240,7 +279,7 @@ fn fam_join(o: &mut Out) {
                                 combos.push((v, o.rng.below(8), o.rng.chance(1, 2)));
                             }
                             for (via, plv, as_str) in combos {
-                                if !o.want() {
+                                if !o.want_s((0u8, vclass(ver), tgt, cur as u8, jr, matches!(via, Via::Absent))) {
                                     continue;
                                 }
                                 let mut ev = member_ev(sender, target, "join");
@@ -317,8 +356,8 @@ fn fam_invite(o: &mut Out) {
                             let all = threshold_pls(sender, "invite", 0, 10);
                             vec![all[o.rng.below(all.len())].clone()]
                         };
-                        for pl in pls {
-                            if !o.want() {
+                        for (vi, pl) in pls.into_iter().enumerate() {
+                            if !o.want_s2((1u8, vclass(ver), target_self, sm as u8, tm as u8), (11u8, vi, tm as u8, target_self, sm == Mem::Join)) {
                                 continue;
                             }
                             let mut s = Scn::new(ver, member_ev(sender, target, "invite"));
@@ -352,7 +391,7 @@ fn fam_tpi_invite(o: &mut Out) {
         for tm in MEMS {
             for signed_kind in 0..12 {
                 for tpi_kind in 0..8 {
-                    if !o.want() {
+                    if !o.want_s((2u8, tm as u8, signed_kind, tpi_kind)) {
                         continue;
                     }
                     let good = signed_obj(BOB, "tok", true);
@@ -401,7 +440,7 @@ fn fam_leave(o: &mut Out) {
         for sender in [CREATOR, ALICE] {
             for sm in MEMS {
                 // self
-                if o.want() {
+                if o.want_s((3u8, vclass(ver), sm as u8)) {
                     let mut s = Scn::new(ver, member_ev(sender, sender, "leave"));
                     s.set_member(sender, mem_content(sm));
                     if o.rng.chance(1, 2) {
@@ -437,8 +476,8 @@ fn fam_leave(o: &mut Out) {
                         let pick = variants[o.rng.below(variants.len())].clone();
                         variants = vec![pick];
                     }
-                    for pl in variants {
-                        if !o.want() {
+                    for (vi, pl) in variants.into_iter().enumerate() {
+                        if !o.want_s2((31u8, vclass(ver), sm as u8, tm as u8), (32u8, vi, tm as u8, sm == Mem::Join)) {
                             continue;
                         }
                         let mut s = Scn::new(ver, member_ev(sender, BOB, "leave"));
@@ -482,8 +521,8 @@ fn fam_ban(o: &mut Out) {
                             let pick = variants[o.rng.below(variants.len())].clone();
                             variants = vec![pick];
                         }
-                        for pl in variants {
-                            if !o.want() {
+                        for (vi, pl) in variants.into_iter().enumerate() {
+                            if !o.want_s2((4u8, vclass(ver), target_self, sm as u8, tm as u8), (41u8, vi, tm as u8, target_self, sm == Mem::Join)) {
                                 continue;
                             }
                             let mut s = Scn::new(ver, member_ev(sender, target, "ban"));
@@ -506,7 +545,7 @@ fn fam_knock(o: &mut Out) {
         for target_self in [true, false] {
             for jr in JRS {
                 for sm in MEMS {
-                    if !o.want() {
+                    if !o.want_s((5u8, vclass(ver), target_self, jr, sm as u8)) {
                         continue;
                     }
                     let target = if target_self { ALICE } else { BOB };
@@ -599,8 +638,8 @@ fn fam_required_power(o: &mut Out) {
                     let pick = variants[o.rng.below(variants.len())].clone();
                     variants = vec![pick];
                 }
-                for pl in variants {
-                    if !o.want() {
+                for (vi, pl) in variants.into_iter().enumerate() {
+                    if !o.want_s2((6u8, vclass(ver), ty, sk, sm as u8), (61u8, vi, ty, sk, sm == Mem::Join)) {
                         continue;
                     }
                     let mut ev = Ev::new("$ev:s1", ALICE, ty, sk, json!({}));
@@ -628,7 +667,7 @@ fn fam_power_levels(o: &mut Out) {
                     for old in [None, Some(-1i64), Some(0), Some(1)] {
                         for new in [None, Some(-1i64), Some(0), Some(1)] {
                             for as_str in [false, true] {
-                                if !o.want() {
+                                if !o.want_s((7u8, ver >= 10, sl, dim, old, new)) {
                                     continue;
                                 }
                                 let val = |d: Option<i64>| d.map(|d| lv(sl + d, as_str));
@@ -780,7 +819,7 @@ const FAMILIES: &[(Fam, u64, u64)] = &[
 pub fn exhaustive(rng: &mut Rng, tier: &str) -> Vec<(Scn, String)> {
     let mut scns = Vec::new();
     for (f, full, quick) in FAMILIES {
-        let mut o = Out { scns: Vec::new(), keep: sizes(tier, *full, *quick), rng: rng.fork() };
+        let mut o = Out { scns: Vec::new(), keep: sizes(tier, *full, *quick), rng: rng.fork(), seen: Default::default() };
         f(&mut o);
         scns.extend(o.scns);
     }
